@@ -39,6 +39,23 @@ func bigValues() []float64 {
 	return out
 }
 
+// bigTwoDigitYears: year arguments around the 0..99 window of 15.9.3.1 step 8
+// (the test is on ToInteger(year): -0.5 and 99.9 are inside, -1 and 100 outside).
+func bigTwoDigitYears() []float64 {
+	return []float64{math.Copysign(0, -1), 0, 0.5, -0.5, 1, 69, 70, 99, 99.9, 100, -1}
+}
+
+// bigDecadeNeighbours: 10^e+1 for e = 6..13 and 9e12, 9e12+1 (a millisecond count
+// near 2^63 ns / 1024), both signs: just beyond the decades of bigValues.
+func bigDecadeNeighbours() []float64 {
+	var out []float64
+	for e := 6; e <= 13; e++ {
+		x := math.Pow(10, float64(e)) + 1
+		out = append(out, x, -x)
+	}
+	return append(out, 9e12, -9e12, 9e12+1, -(9e12 + 1))
+}
+
 func bigSrc(x float64) string { return strconv.FormatFloat(x, 'g', -1, 64) }
 
 // --- alternative model "G": composition in Go int arithmetic through time.Date,
@@ -399,6 +416,70 @@ func runBigFields(r *engine.Run) {
 			r.Mismatch(engine.Mismatch{Key: key, Input: input, Expected: exp, Observed: obs, Aux: aux})
 		}
 	}
+	// two-digit years: the 0..99 -> 1900+y rule of 15.9.3.1 step 8 / 15.9.4.3 step 8 tests
+	// ToInteger(year) whatever the size of the other fields, and never applies to setUTCFullYear.
+	twoDigit := bigTwoDigitYears()
+	mags := append(append([]float64(nil), big...), bigDecadeNeighbours()...)
+	for bi, base := range bigBases {
+		for opi := 0; opi < 2; opi++ {
+			for yi, y := range twoDigit {
+				for p := 1; p < 7; p++ {
+					for xi, x := range mags {
+						for _, k := range []int{7, p + 1} {
+							vals := append([]float64(nil), base[:k]...)
+							vals[0], vals[p] = y, x
+							tuple(fmt.Sprintf("d%d.%d.%d.%d.%d.%d", bi, opi, yi, p, xi, k), opi, vals)
+							if p+1 == 7 {
+								break
+							}
+						}
+					}
+				}
+			}
+		}
+	}
+	for ri, t0 := range bigReceivers[:2] {
+		for yi, y := range twoDigit {
+			for p := 1; p < 3; p++ {
+				for xi, x := range mags {
+					key := fmt.Sprintf("ds%d.%d.%d.%d", ri, yi, p, xi)
+					if !mine(r, key) {
+						continue
+					}
+					s := date.SetUTCFullYear
+					vals := []float64{y, 0, 1}[:p+1]
+					vals[p] = x
+					call := []interface{}{t0, 0, int(s), len(vals)}
+					srcs := make([]string, len(vals))
+					for i := 0; i < 4; i++ {
+						if i < len(vals) {
+							call = append(call, vals[i])
+							srcs[i] = bigSrc(vals[i])
+						} else {
+							call = append(call, otto.UndefinedValue())
+						}
+					}
+					post := date.Apply(es5, s, t0, toArgs(vals))
+					render := func(p float64) string {
+						return num(t0) + "|" + num(p) + "," + num(p) + "," + num(p) + "|" + fieldsString(p)
+					}
+					exp := render(post)
+					input := fmt.Sprintf("d = new Date(%s); d.%s(%s)", num(t0), date.SetterNames[s], strings.Join(srcs, ", "))
+					r.Begin(key)
+					obs := d.call(func(m *machine) otto.Value { return m.hist }, call...)
+					r.End()
+					r.Eval(!math.IsNaN(post))
+					r.Outcome(obs)
+					if obs == exp {
+						continue
+					}
+					aux := altAux("G", exp, func(string) string { return render(goApply(s, t0, vals)) })
+					r.Mismatch(engine.Mismatch{Key: key, Input: input, Expected: exp, Observed: obs, Aux: aux})
+				}
+			}
+		}
+	}
+	r.Bound("two_digit_years", fmt.Sprintf("year from %d values {-0, 0, 0.5, -0.5, 1, 69, 70, 99, 99.9, 100, -1} x one other field (every position) from %d magnitudes (values + decade neighbours 10^e+1, 9e12, 9e12+1, both signs) x 2 bases x {Date.UTC, new Date} x {full, shortest} arity; setUTCFullYear(y, month[, day]) with the same years and magnitudes on 2 receivers (no adjustment)", len(twoDigit), len(mags)))
 	r.Bound("year_month_carry", "year x with month -12x (+0, +5, +12*83333), |month| <= 1e15: Date.UTC, new Date, setUTCFullYear")
 	r.Bound("cancelling_pairs", "field p = x, finer field q = -x * unit(p)/unit(q): all pairs of day..ms in Date.UTC / new Date, all argument pairs of setUTCSeconds/Minutes/Hours")
 	r.Bound("values", fmt.Sprintf("%d: +-{1e7..1e22, 2^31-1..2^31+1, 2^32-1..2^32+1, 2^53-1, 2^53, 2^53+2, 2^63 and neighbours, 2^64, 9.2e12..9.3e12, 8.64e15-1..8.64e15+1, 1e300, MAX_VALUE}", len(big)))
